@@ -297,7 +297,19 @@ def build_zoo(ctx):
     grids = [([0.0, 1.0],), ([0.0, 1.0, 2.0],), ([-0.0, 1.0],), ([0.0, 1.0, 3.0],), ([0.5],),
              ([0.0, 1.0], [0.0, 1.0]), ([0.0, 1.0], [0.0, 2.0]), ([0.0, 1.0], [-0.0, 1.0]),
              ([0.0, 1.0, 2.0], [0.0, 1.0]), ([0.0, 1.0], [0.0, 1.0, 2.0]),
-             ([0.0, 1.0], [0.0, 1.0], [0.0, 1.0]), ([-1.0, 0.0, 1.0],), ([-1.0, -0.0, 1.0],)]
+             ([0.0, 1.0], [0.0, 1.0], [0.0, 1.0]), ([-1.0, 0.0, 1.0],), ([-1.0, -0.0, 1.0],),
+             # same shape and end points, exactly one INTERIOR coordinate differs
+             ([0.0, 1.0, 2.0, 3.0],), ([0.0, 1.0, 2.5, 3.0],), ([0.0, 0.5, 2.5, 3.0],),
+             ([0.0, 1.0, 2.0], [0.0, 1.0, 2.0, 3.0]), ([0.0, 1.0, 2.0], [0.0, 1.0, 2.5, 3.0]),
+             ([0.0, 0.5, 2.0], [0.0, 1.0, 2.0, 3.0])]
+    for k in range(2 if ctx.quick else 10):
+        n = rng.randint(3, 6)
+        base = [float(i) for i in range(n)]
+        j = rng.randint(1, n - 2)
+        moved = list(base)
+        moved[j] += rng.choice([-0.5, 0.25, 0.5])
+        grids.append((base,))
+        grids.append((moved,))
     for vs in grids:
         add('RectGrid{}'.format(vs), lambda vs=vs: odl.RectGrid(*vs),
             dup=(len(vs) == 1 and len(vs[0]) <= 2))
@@ -322,6 +334,12 @@ def build_zoo(ctx):
         ('up4', lambda: odl.uniform_partition([0] * 4, [1] * 4, (2,) * 4), False),
         ('part(0,1;[0.5])', lambda: odl.RectPartition(
             odl.IntervalProd(0, 1), odl.RectGrid([0.5])), False),
+        ('part(0,3;[0,1,2,3])', lambda: odl.RectPartition(
+            odl.IntervalProd(0, 3), odl.RectGrid([0.0, 1.0, 2.0, 3.0])), False),
+        ('part(0,3;[0,1,2.5,3])', lambda: odl.RectPartition(
+            odl.IntervalProd(0, 3), odl.RectGrid([0.0, 1.0, 2.5, 3.0])), False),
+        ('part(0,3;[0,.5,2.5,3])', lambda: odl.RectPartition(
+            odl.IntervalProd(0, 3), odl.RectGrid([0.0, 0.5, 2.5, 3.0])), False),
     ]
     for nm, th, dup in parts:
         add('RectPartition:' + nm, th, dup=dup)
@@ -438,6 +456,12 @@ def build_zoo(ctx):
             odl.nonuniform_partition([0, 2, 3], min_pt=-1), odl.rn(3)), False),
         ('nud([0,2,3],w=2)', lambda: odl.DiscretizedSpace(odl.nonuniform_partition([0, 2, 3]),
                                                           odl.rn(3, weighting=2.0)), False),
+        ('ds(0,3;[0,1,2,3])', lambda: odl.DiscretizedSpace(odl.RectPartition(
+            odl.IntervalProd(0, 3), odl.RectGrid([0.0, 1.0, 2.0, 3.0])), odl.rn(4)), False),
+        ('ds(0,3;[0,1,2.5,3])', lambda: odl.DiscretizedSpace(odl.RectPartition(
+            odl.IntervalProd(0, 3), odl.RectGrid([0.0, 1.0, 2.5, 3.0])), odl.rn(4)), False),
+        ('ds(0,3;[0,.5,2.5,3])', lambda: odl.DiscretizedSpace(odl.RectPartition(
+            odl.IntervalProd(0, 3), odl.RectGrid([0.0, 0.5, 2.5, 3.0])), odl.rn(4)), False),
     ]
     for nm, th, dup in dss:
         add('DiscretizedSpace:' + nm, th, dup=dup)
@@ -483,6 +507,15 @@ def build_zoo(ctx):
         ('P(r3w3,2)', lambda: odl.ProductSpace(odl.rn(3, weighting=W3), 2), False),
         ('P(r3w3,r3w3copy)', lambda: odl.ProductSpace(odl.rn(3, weighting=W3),
                                                       odl.rn(3, weighting=W3_COPY)), False),
+        # mixed component dtypes (same field)
+        ('P(r2,r3f32)', lambda: odl.ProductSpace(r2, odl.rn(3, dtype='float32')), True),
+        ('P(r3f32,r2)', lambda: odl.ProductSpace(odl.rn(3, dtype='float32'), r2), False),
+        ('P(r2,int2)', lambda: odl.ProductSpace(r2, odl.tensor_space(2, dtype='int64')), False),
+        ('P(c2,c2c64)', lambda: odl.ProductSpace(c2, odl.cn(2, dtype='complex64')), False),
+        ('P(P(r2,2),P(r2f32,2))', lambda: odl.ProductSpace(
+            odl.ProductSpace(r2, 2), odl.ProductSpace(odl.rn(2, dtype='float32'), 2)), False),
+        ('P(ud,udf32)', lambda: odl.ProductSpace(
+            odl.uniform_discr(0, 1, 3), odl.uniform_discr(0, 1, 3, dtype='float32')), False),
     ]
     for nm, th, dup in pss:
         add('ProductSpace:' + nm, th, dup=dup)
